@@ -243,6 +243,53 @@ def eval_bool(e, env):
     return {True, False}
 
 
+def eval_bool_joint(exprs, env, limit=256):
+    """Possible value tuples of several boolean expressions that may share joins: the same join (phi) node takes
+    the same alternative in all of them (a value computed once and used twice), instead of varying independently."""
+    phis = []
+
+    def collect(e):
+        e = strip(e, calls=set())
+        if not isinstance(e, tuple):
+            return
+        if e[0] == "phi":
+            if e not in phis:
+                phis.append(e)
+            for v in e[1]:
+                collect(v)
+        elif e[0] == "un":
+            collect(e[2])
+        elif e[0] == "bin":
+            collect(e[2])
+            collect(e[3])
+
+    def subst(e, ch):
+        e = strip(e, calls=set())
+        if not isinstance(e, tuple):
+            return e
+        if e[0] == "phi":
+            return subst(e[1][ch[e]], ch)
+        if e[0] == "un":
+            return ("un", e[1], subst(e[2], ch))
+        if e[0] == "bin":
+            return ("bin", e[1], subst(e[2], ch), subst(e[3], ch))
+        return e
+    for e in exprs:
+        collect(e)
+    out = set()
+    n = 1
+    for ph in phis:
+        n *= len(ph[1])
+    if n > limit:
+        return {tuple(None for _ in exprs)}
+    for choice in itertools.product(*[range(len(ph[1])) for ph in phis]):
+        ch = dict(zip(phis, choice))
+        vals = [eval_bool(subst(e, ch), env) for e in exprs]
+        for tup in itertools.product(*vals):
+            out.add(tup)
+    return out
+
+
 def truth_table(e, atoms=None):
     atoms = atoms if atoms is not None else bool_atoms(e)
     rows = []
